@@ -274,13 +274,15 @@ def time_shift(z, /, shift, crop=False):
     start, stop = 0, 0
     it = np.nditer(shift, flags=["multi_index"])
     for a in it:
+        # A shift given along a length-1 (broadcast) axis applies to the whole axis
+        bix = tuple(i if n > 1 else slice(None) for i, n in zip(it.multi_index, shift.shape))
         if a < 0:
             a = int(np.floor(a))
-            ix = (np.s_[a:],) + it.multi_index
+            ix = (np.s_[a:],) + bix
             stop = min(stop, a)
         else:
             a = int(np.ceil(a))
-            ix = (np.s_[:a],) + it.multi_index
+            ix = (np.s_[:a],) + bix
             start = max(start, a)
 
         shifted[ix] = 0
